@@ -27,7 +27,7 @@ func init() {
 			// volume cycles, i.e. hundreds of thousands to millions of sub-steps per call
 			{Name: "storage-long", Variant: "plain", N: core.Tiered(6, 60), Run: c13Long, TimeoutS: 600},
 		},
-		RequireTags: func(string) []string { return []string{"empty", "long-run"} },
+		RequireTags: func(string) []string { return []string{"empty", "long-run", "initial-volume-on-knot"} },
 		// observed through the sub-step hook (and sub-stepping itself is an implementation choice)
 		ExpectTags: func(string) []string { return []string{"spill", "substeps>1", "demand-met", "demand-above-max", "demand-below-min"} },
 	})
@@ -165,6 +165,9 @@ func c13Run(c *core.Ctx, long bool) {
 	}
 	if c.R.Bool(0.15) {
 		v0 = 0
+	} else if c.R.Bool(0.15) {
+		v0 = vols[c.R.Intn(n)] // exactly on a knot of the level-volume-area table (the last one = exactly full supply)
+		c.Tag("initial-volume-on-knot")
 	}
 	run := &MRun{Model: model, N: 1, T: T, Sets: []PSet{ps}, Inputs: [][][]float64{in}, States: [][]float64{{v0, interpTable(v0, vols, levels), interpTable(v0, vols, areas)}}}
 	c.Begin(map[string]interface{}{"model": model, "scenario": scn, "run": run})
